@@ -183,19 +183,21 @@ def c20_describe(lines, off):
 
 def run_c20(run):
     quick = run.tier == "quick"
-    vlib.sany(LW, "LogWriter")
-    vlib.sany(LW, "LogWriterTrace")
-    vlib.sany(LW, "LogWriterSched")
-    seeded_bugs(run, LW, "LogWriter", LW_BUGS)
     cfgs = ["LogWriter.cfg", "LogWriterIndex.cfg"] if quick else \
         ["LogWriter.cfg", "LogWriterIndex.cfg", "LogWriter4.cfg", "LogWriterThorough.cfg", "LogWriterThoroughIndex.cfg",
          "LogWriter6.cfg", "LogWriterLive.cfg"]
-    for cfg in cfgs:
-        r = vlib.tlc_must_pass(LW, "LogWriter", cfg, workers=W, timeout=1500, coverage=(cfg == "LogWriter.cfg"), heap="8g")
-        run.add_design("LogWriter/" + cfg, r)
-        nt = run.design["LogWriter/" + cfg].get("never_taken")
+    jobs = [(c, (lambda c=c, e=e: vlib.tlc_must_fail(LW, "LogWriter", c, expect=e, workers=2, timeout=600, heap="2g"))) for c, e in LW_BUGS]
+    for c in cfgs:
+        jobs.append((c, (lambda c=c: vlib.tlc_must_pass(LW, "LogWriter", c, workers=max(2, W // 2), timeout=1500,
+                                                         coverage=(c == "LogWriter.cfg"), heap="8g" if not quick else "3g"))))
+    res = parallel_tlc(jobs, nproc=3)
+    for c, e in LW_BUGS:
+        run.design["LogWriter/" + c] = dict(caught=res[c].violation, generated=res[c].generated, wall_s=round(res[c].wall, 1))
+    for c in cfgs:
+        run.add_design("LogWriter/" + c, res[c])
+        nt = run.design["LogWriter/" + c].get("never_taken")
         if nt:
-            raise vlib.Inconclusive("LogWriter/%s: actions never taken (vacuous): %s" % (cfg, nt))
+            raise vlib.Inconclusive("LogWriter/%s: actions never taken (vacuous): %s" % (c, nt))
     binp = vlib.build_driver("record", name="wal_record" + SFX)
     tdir = vlib.scratch("verif.c20.")
     sf = os.path.join(tdir, "sched.jsonl")
@@ -533,6 +535,7 @@ def run_c19(run):
     for r in runs[1:3]:
         e = json.loads(r[0])
         run.sample({k: e[k] for k in ("sizes", "dlo", "dhi", "dkind", "new", "recs", "term")})
+    c19_open(run, quick)
     run.assumptions += [
         "a later intact chunk 'shows' that damage was synced when it lies in a later 32 KiB block, is reachable from that block's start through intact "
         "chunks, and its sync offset covers the whole damaged chunk; when the sync offset falls inside the damaged chunk either outcome is accepted",
@@ -550,9 +553,19 @@ def c19_open(run, quick):
     if "DRIVER-DONE" not in out:
         raise vlib.Inconclusive("waldrv TestVWalOpenCorruption died:\n" + out[-3000:])
     runs = [r for _, r in split_runs(os.path.join(tdir, "opencorr.ndjson"))]
-    acc, events, rej = validate_runs(run, RL, "OpenCorruptionTrace", "OpenCorruptionTrace.cfg", runs, {"reopen"}, "C19-open", keep_name="c19open")
+    if not runs:
+        raise vlib.Inconclusive("waldrv produced no reopen cases")
+
+    def describe(lines, off):
+        e = json.loads(lines[off])
+        return "WAL chunks %s damaged at [%s,%s) %s -> Open: %s, batches present %s" % (e["new"], e["dlo"], e["dhi"], e["dkind"], e["cls"], e["present"])
+    acc, events, rej = validate_runs(run, RL, "OpenCorruptionTrace", "OpenCorruptionTrace.cfg", runs, {"reopen"}, "C19-open", keep_name="c19open",
+                                     describe=describe, heap="2g")
     run.traces += acc
+    evs = [json.loads(r[0]) for r in runs]
     run.cov["open_level_cases"] = len(runs)
+    run.cov["open_level_outcomes"] = {c: sum(1 for e in evs if e["cls"] == c) for c in sorted(set(e["cls"] for e in evs))}
+    run.cov["evaluations"] += len(runs)
 
 
 # --------------------------------------------------------------------------
@@ -737,7 +750,8 @@ def REGISTER(reg):
     reg("C19", "WAL corruption inside synced data is reported", run_c19,
         "RecordLog!CorruptionReported is checked exhaustively by TLC (scaled-down constants, every damaged byte/chunk x sync pattern, two seeded "
         "bugs); real WAL-sync logs written by the real LogWriter with real sync points are damaged chunk by chunk and read by the real Reader; TLC "
-        "decides: synced damage is reported as corruption, unsynced damage is an end of log, a damaged chunk is never returned.",
+        "decides: synced damage is reported as corruption, unsynced damage is an end of log, a damaged chunk is never returned. End to end: WALs "
+        "written by a real DB (seeded Sync/NoSync commits) are damaged and reopened with the real Open; TLC decides ErrCorruption vs clean prefix.",
         NOTE, TECH, "DESIGN 6/C19", engine="wal")
     reg("C20", "Sync acknowledgement implies data synced", run_c20,
         "LogWriter.tla (producer, flushLoop, sync queue / highest-sync-index, min-sync-interval timer, Close, injected write/sync "
@@ -748,4 +762,5 @@ def REGISTER(reg):
 
 SPEC_MODULES = [("LogWriter", "LogWriter"), ("LogWriter", "LogWriterTrace"), ("LogWriter", "LogWriterSched"),
                 ("RecordLog", "RecordLogCheck"), ("RecordLog", "RecordLogGen"), ("RecordLog", "RecordLogTrace"),
+                ("RecordLog", "OpenCorruptionTrace"),
                 ("Failover", "Failover"), ("Failover", "FailoverGen"), ("Failover", "FailoverTrace")]
